@@ -284,6 +284,10 @@ def binop_once(spec, res, a, b, op, coords, pncbo, label):
     for k, va in sa.vars.items():
         if k in coords or k not in sb.vars:
             continue
+        if va.data.dtype.kind in 'USO':
+            # arithmetic is defined for numeric variables
+            dom = False
+            continue
         try:
             with np.errstate(all='ignore'):
                 ref[k] = OPS[op](va.data, sb.vars[k].data)
